@@ -207,9 +207,30 @@ def check_term_value(rule, db, cfgname, cls, sign_num, bosonic):
     tau = F2.name_atom(("param", t2.params[0]["d"], t2.params[0]["n"]), "tau")
     beta = F2.name_atom(("param", t2.params[1]["d"], t2.params[1]["n"]), "beta")
     rets = [j for j, n in t2.walk(t2.body) if n["k"] == "return"]
-    if len(rets) != 1:
+    if len(rets) == 2:
+        # if (P > 0) return A; else return B;   ==   return P > 0 ? A : B
+        at2 = guard_facts(t2, ctx2)
+        Pk = fld(cls + "::Term::Pole")
+        br = {}
+        for j in rets:
+            fa = at2.get(t2.cfg.pos1(j), frozenset())
+            sgn = [x for x in fa if x[0] in ("<", "<=") and {x[1], x[2]} == {Pk, ("lit", 0)}]
+            if len(sgn) != 1:
+                raise AnalysisBroken("%s::Term::operator()(tau,beta): a return is not under a sign test of the pole" % cls)
+            x = sgn[0]
+            # 0 < P -> '>' ; P <= 0 -> '<=' ...
+            op = (">" if x[0] == "<" else ">=") if x[1] == ("lit", 0) else x[0]
+            br[op] = ctx2.key(t2.nodes[j]["sub"])
+        if set(br) == {">", "<="}:
+            rk = ("cond", ("op", ">", Pk, ("lit", 0)), br[">"], br["<="])
+        elif set(br) == {">=", "<"}:
+            rk = ("cond", ("op", ">=", Pk, ("lit", 0)), br[">="], br["<"])
+        else:
+            raise AnalysisBroken("%s::Term::operator()(tau,beta): the two returns are not under complementary sign tests of the pole" % cls)
+    elif len(rets) != 1:
         raise AnalysisBroken("%s::Term::operator()(tau,beta): expected one return" % cls)
-    rk = ctx2.key(t2.nodes[rets[0]]["sub"])
+    else:
+        rk = ctx2.key(t2.nodes[rets[0]]["sub"])
     site = cls + "::Term::operator()(tau,beta)"
     # conditionals buried inside the expression (numerator / denominator chosen separately by the same test, possibly through a
     # bool local): split on the one condition they share and treat the two specialisations as the two branches
